@@ -113,7 +113,9 @@ impl Database {
             if !self.config.lock().unwrap().disable_optimizer {
                 plan = optimizer.optimize(plan);
             }
-            let executor = match self.storage.clone() {
+            // A plan the executor builder can not handle panics inside `build`, before any operator
+            // task exists: report it as an error of this statement, do not unwind out of `run`.
+            let build = || match self.storage.clone() {
                 StorageImpl::InMemoryStorage(s) => {
                     crate::executor::build(optimizer.clone(), s, &plan)
                 }
@@ -121,6 +123,14 @@ impl Database {
                     crate::executor::build(optimizer.clone(), s, &plan)
                 }
             };
+            let executor = std::panic::catch_unwind(std::panic::AssertUnwindSafe(build)).map_err(
+                |payload| {
+                    let message = (payload.downcast_ref::<&str>().map(|s| s.to_string()))
+                        .or_else(|| payload.downcast_ref::<String>().cloned())
+                        .unwrap_or_else(|| "unknown panic".into());
+                    Error::Internal(format!("executor builder panicked: {message}"))
+                },
+            )?;
             let output = executor.try_collect().await?;
             let mut chunk = Chunk::new(output);
             chunk = bind_header(chunk, &stmt);
